@@ -4,7 +4,8 @@ CONSTANTS Engines, Profiles, CTs, Kinds, ChunkSizes, StallPoints
 VARIABLE scn
 Init == \E en \in Engines : \E pr \in Profiles : \E ct \in CTs : \E k \in Kinds :
           \/ k = "flow"  /\ \E cs \in ChunkSizes : scn = [kind |-> k, engine |-> en, profile |-> pr, ct |-> ct, chunk |-> cs, n |-> 4]
-          \/ k = "stall" /\ \E sp \in StallPoints : scn = [kind |-> k, engine |-> en, profile |-> pr, ct |-> ct, at |-> sp]
+          \* a stall is "mid-response": after the headers; before them the response timeout governs, not the read timeout
+          \/ k = "stall" /\ \E sp \in StallPoints \ {"prehdr"} : scn = [kind |-> k, engine |-> en, profile |-> pr, ct |-> ct, at |-> sp]
           \/ k = "pause" /\ scn = [kind |-> k, engine |-> en, profile |-> pr, ct |-> ct, gap |-> 300]
           \/ k = "abort" /\ \E sp \in StallPoints : scn = [kind |-> k, engine |-> en, profile |-> pr, ct |-> ct, at |-> sp]
           \/ k = "leak"  /\ ct = "text/event-stream" /\ scn = [kind |-> k, engine |-> en, profile |-> pr, ct |-> ct, reps |-> 20]
